@@ -65,8 +65,10 @@ def run_core_stab(an, rep):
     p0 = INT(Poly.sym('p0'))
     I.run_function(fn, {'G': G, 'p0': p0})
     if len(I.entry_returns) < 2:
-        rep.error('core.core_stab: expected two return paths, found %d'
-                  % len(I.entry_returns))
+        rep.violation('G-log', 'core.core_stab', 'threshold branch',
+                      'core_stab no longer has the early return for a core '
+                      'whose largest modulus is below the threshold: log2 of '
+                      '0 for a zero core')
     for j, rv in enumerate(I.entry_returns):
         if rv.k == 'tuple' and len(rv.items) == 2:
             check_pair(rep, 'core.core_stab', 'return path %d: (Q, p0 + p)' % j,
